@@ -414,6 +414,9 @@ def graph_build(repo, res):
     class MultiIndex(Expr):
         _ufl_is_terminal_ = True
 
+    class Label(Expr):
+        _ufl_is_terminal_ = True
+
     def world(primary):
         it = Interp(repo, load_classes(repo), primary=primary)
         it.obj_classes = {"ExpressionGraph": GRAPH, "ModifiedTerminal": MT}
@@ -423,6 +426,8 @@ def graph_build(repo, res):
             it.call_f(gm.func("ExpressionGraph.__init__"), [g])
             return g
         it.overrides["ExpressionGraph"] = _PyCall(new_graph)
+        it.overrides["ufl.classes.MultiIndex"] = MultiIndex
+        it.overrides["ufl.classes.Label"] = Label
         it.overrides["rebuild_with_scalar_subexpressions"] = _PyCall(lambda G: [G.f["nodes"][max(G.f["nodes"])]["expression"]])
         it.overrides["Conj"] = _PyCall(lambda x: Conj(x))
         it.overrides["conditional"] = _PyCall(lambda c, t, f_: Conditional(c, _as(t), _as(f_)))
@@ -542,7 +547,6 @@ def graph_build(repo, res):
     key = f"{cnt.key}:multiindex-has-no-node"
     res.ob(key)
     it = world(GRAPH)
-    it.overrides["ufl.classes.MultiIndex"] = _PyCall(lambda *a_: None)
     mi = MultiIndex(Rat.const(0), (), "mi")
 
     class IndexSum(Expr):
